@@ -390,7 +390,7 @@ fn nat_of(b: &Big) -> Natural {
 pub fn meta() -> Meta {
     Meta {
         level: "exploration",
-        rule: "bounded exhaustive. sat_count: kinds {bdd,bcdd,zbdd}, n=3, all 6 orders, all 256 functions x vars in {3,4,63,64,73,127,128,1021,1024,1100} (zbdd: vars = number of manager variables; managers with 3, 73 and 1100 variables whose extra variables are don't-cares) x {Saturating<u64>, Saturating<u128>, F64, Natural} x cache_all in {off,on}, with a fresh cache per call and with one cache per number type reused across all handles (vars outer / vars inner / reverse order + no-op gc), across drop+gc+creation of a different function for all 256 x 256 pairs (t1,t2), across drop+gc+set_var_order to each of the 6 orders on a manager without live handles; enumerated cache histories: every sequence of length 5 (thorough 6) over 8 actions {query(f0|f1, vars 3|4), gc, rebuild f1 in recycled slots, toggle cache_all, reorder(rotate) with all handles alive followed by new helper functions that recycle the freed slots} on one cache per number type, every query checked; thorough: n=4 all 65536 functions under all 24 orders (shared cache, rolling drop/gc, fresh cache). Natural: boundary operand set B (0..3, 2^k-1, 2^k, 2^k+1 for k in {31,32,63,64,65,127,128,129,191,192,255,256}, (2^64+1)*2^j, carry-chain patterns, shifted variants): all ordered pairs for +, ==, partial_cmp, all ordered triples for sums, all (b,s) for <<, >> with s in S (u32 and u64 amounts incl. exponent overflow), From<u8..u128>, from_le_digits, clone/clone_from, hash, bit_width, TryFrom to u64/u128, f64 conversion on a rounding-boundary family, Display/Binary/Octal/LowerHex/UpperHex under 24 flag templates x 9 widths. A sat_count case is non-trivial when the function is not constant; a Natural case is non-trivial when all operands are non-zero; every enumerated tuple is distinct.",
+        rule: "bounded exhaustive. sat_count: kinds {bdd,bcdd,zbdd}, n=3, all 6 orders, all 256 functions x vars in {3,4,63,64,73,127,128,1021,1024,1100} (zbdd: vars = number of manager variables; managers with 3, 73 and 1100 variables whose extra variables are don't-cares) x {Saturating<u64>, Saturating<u128>, F64, Natural} x cache_all in {off,on}, with a fresh cache per call and with one cache per number type reused across all handles (vars outer / vars inner / reverse order + no-op gc), across drop+gc+creation of a different function for all 256 x 256 pairs (t1,t2), across drop+gc+set_var_order to each of the 6 orders on a manager without live handles; enumerated cache histories: every sequence of length 5 (thorough 6) over 9 actions {query(f0|f1, vars 3|4) alternately through sat_count and the edge-level sat_count_edge, gc, rebuild f1 in recycled slots, toggle cache_all, reorder(rotate) with all handles alive followed by new helper functions that recycle the freed slots, pick_cube_uniform(f0|f1) through the F64 cache} on one cache per number type, every query checked; thorough: n=4 all 65536 functions under all 24 orders (shared cache, rolling drop/gc, fresh cache). Natural: boundary operand set B (0..3, 2^k-1, 2^k, 2^k+1 for k in {31,32,63,64,65,127,128,129,191,192,255,256}, (2^64+1)*2^j, carry-chain patterns, shifted variants): all ordered pairs for +, ==, partial_cmp, all ordered triples for sums, all (b,s) for <<, >> with s in S (u32 and u64 amounts incl. exponent overflow), From<u8..u128>, from_le_digits, clone/clone_from, hash, bit_width, TryFrom to u64/u128, f64 conversion on a rounding-boundary family, Display/Binary/Octal/LowerHex/UpperHex under 24 flag templates x 9 widths. A sat_count case is non-trivial when the function is not constant; a Natural case is non-trivial when all operands are non-zero; every enumerated tuple is distinct.",
         assumptions: vec![
             "operands are built through DiagramRules::reduce + then_insert, not through apply operators".into(),
             "ZBDD: sat_count is only called with vars = number of manager variables (the only value for which the Boolean-function reading of a ZBDD is defined); a change of vars is therefore not exercised for ZBDDs".into(),
@@ -1861,7 +1861,8 @@ fn hist_count<K: BoolKind, N: NumT>(ctx: &mut Ctx, env: &Env, f: &K::F, t: Tab, 
     ctx.count("evaluations", 1);
     ctx.count("transitions", 1);
     let exact = exact_count(t, env.n, vars);
-    let got = f.sat_count(vars, cache);
+    // every other query goes through the edge-level entry point
+    let got = if step % 2 == 1 { f.with_manager_shared(|m, e| K::F::sat_count_edge(m, e, vars, cache)) } else { f.sat_count(vars, cache) };
     if let Err(why) = got.judge(&exact, vars) {
         let names: Vec<&str> = acts.iter().map(|&a| CH_NAMES[a]).collect();
         ctx.viol(
@@ -1874,7 +1875,7 @@ fn hist_count<K: BoolKind, N: NumT>(ctx: &mut Ctx, env: &Env, f: &K::F, t: Tab, 
     }
 }
 
-const CH_NAMES: [&str; 8] = ["q(f0,v1)", "q(f0,v2)", "q(f1,v1)", "q(f1,v2)", "gc", "rebuild f1", "toggle cache_all", "reorder(rotate) + new helper functions"];
+const CH_NAMES: [&str; 9] = ["q(f0,v1)", "q(f0,v2)", "q(f1,v1)", "q(f1,v2)", "gc", "rebuild f1", "toggle cache_all", "reorder(rotate) + new helper functions", "pick_cube_uniform(f0 | f1) through the F64 cache"];
 
 fn run_cache_hist<K: BoolKind>(ctx: &mut Ctx, order: &[u32]) {
     let n = 3u32;
@@ -1884,7 +1885,7 @@ fn run_cache_hist<K: BoolKind>(ctx: &mut Ctx, order: &[u32]) {
     let env = Env { kind: K::NAME, n, order: model::order_str(&order), mgr_vars: n, layout: "plain" };
     // ZBDD: vars must be the number of manager variables, so only one variable count
     let (v1, v2) = if zbdd { (3, 3) } else { (3, 4) };
-    let na = 8usize;
+    let na = 9usize;
     for first in 0..na {
         ctx.group(&format!("cache histories first action {first}"), |ctx| {
             let total = na.pow(depth as u32 - 1);
@@ -1930,6 +1931,30 @@ fn run_cache_hist<K: BoolKind>(ctx: &mut Ctx, order: &[u32]) {
                         }
                         4 => {
                             gc_of::<K>(&mref);
+                        }
+                        8 => {
+                            // uniform sampling uses the same cache type as the F64 queries (and counts over the
+                            // manager's variables); the cube must imply the function
+                            let g = f[0].or(&f[1]).unwrap();
+                            let gt = tabs[0] | tabs[1];
+                            let mut rng = oxidd::util::Rng::new_seed(i as u64 + 1);
+                            ctx.count("evaluations", 1);
+                            let cube = g.pick_cube_uniform(&mut cf, &mut rng);
+                            let ok = match &cube {
+                                None => gt == 0,
+                                Some(c) => (0..8u32).all(|a| {
+                                    let matches = c.iter().enumerate().all(|(v, o)| match *o as i8 { 0 => (a >> v) & 1 == 0, 1 => (a >> v) & 1 == 1, _ => true });
+                                    !matches || if zbdd { true } else { (gt >> a) & 1 == 1 }
+                                }),
+                            };
+                            if !ok {
+                                let names: Vec<&str> = acts.iter().map(|&a| CH_NAMES[a]).collect();
+                                ctx.viol(
+                                    attrs(&[("kind", env.kind), ("op", "pick_cube_uniform"), ("history", "enumerated_cache_history"), ("class", "not_an_implicant")]),
+                                    json!({"kind": env.kind, "order": env.order, "actions": acts, "action_names": names, "failed_at_step": i, "table": format!("{gt:#x}"), "cube": format!("{cube:?}")}),
+                                    &format!("{} order {} cache history {names:?}: step {i}: pick_cube_uniform({gt:#x}) = {cube:?} does not imply the function", env.kind, env.order),
+                                );
+                            }
                         }
                         5 => {
                             // drop f1 and the helpers, gc, build different functions into the recycled slots
